@@ -446,7 +446,14 @@ impl<Upstream> ValidationContext<Upstream> {
         // A secure answer may actually be insecure if there is an insecure
         // CNAME or DNAME in the chain. Start by assume that secure is secure
         // and downgrade if required.
-        let maybe_secure = ValidationState::Secure;
+        let mut maybe_secure = ValidationState::Secure;
+
+        // The answer can only be secure if every RRset in the answer section
+        // is secure. Also take RRsets into account that are neither part of
+        // the CNAME/DNAME chain nor the final answer.
+        for g in &answers {
+            maybe_secure = map_maybe_secure(g.state(), maybe_secure);
+        }
 
         let (sname, state, ede) = do_cname_dname(
             qname,
